@@ -10,6 +10,29 @@ let next () = match !toks with t :: r -> toks := r; t | [] -> failwith "eof"
 let next_int () = int_of_string (next ())
 let next_nat () = nat_of_int (next_int ())
 
+(* exact double -> Q and certificate input (same format as ocaml/c04/driver.ml) *)
+let rec pos_shift (p:positive) (k:int) : positive = if k <= 0 then p else pos_shift (XO p) (k-1)
+let q_of_float (f:float) : q =
+  if f = 0.0 || Float.is_nan f then { qnum = Z0; qden = XH }
+  else if Float.is_integer f && Float.abs f < 1e15 then { qnum = z_of_string (Printf.sprintf "%.0f" f); qden = XH }
+  else
+    let (m, e) = Float.frexp f in
+    let mi = Int64.of_float (Float.ldexp m 53) in
+    let zi = z_of_string (Int64.to_string mi) in
+    let k = e - 53 in
+    if k >= 0 then
+      { qnum = (match zi with Z0 -> Z0 | Zpos p -> Zpos (pos_shift p k) | Zneg p -> Zneg (pos_shift p k)); qden = XH }
+    else { qnum = zi; qden = pos_shift XH (-k) }
+let next_q () = q_of_float (float_of_string (next ()))
+let next_vec () = let x = next_q () in let y = next_q () in let z = next_q () in { vx = x; vy = y; vz = z }
+let rec times n f = if n <= 0 then [] else let x = f () in x :: times (n-1) f
+let verts () = let n = next_int () in times n next_vec
+let weights () =
+  let n = next_int () in
+  let ws = times n next_q in
+  let s = List.fold_left qplus { qnum = Z0; qden = XH } ws in
+  if s.qnum = Z0 then ws else List.map (fun w -> qred (qdiv w s)) ws
+
 let bsize = ref O
 let state : rstate list ref = ref []
 let nreq = ref 0
@@ -69,6 +92,10 @@ let handle (line : string) : string =
       let sums = String.concat " " (List.init n (fun i ->
         let (a, t) = (get st' (nat_of_int i)).sums in string_of_z a ^ ":" ^ string_of_z t)) in
       ids_or_dash (List.map (fun r -> r.rid) order) ^ " | " ^ vs ^ " | " ^ sums
+  | "SEP" -> let n = next_vec () in let d = next_q () in let m = next_q () in
+             let a = verts () in let b = verts () in if separates n d m a b then "1" else "0"
+  | "COM" -> let e = next_q () in let la = weights () in let a = verts () in
+             let mu = weights () in let b = verts () in if common_point e la mu a b then "1" else "0"
   | "DEF" ->
       (match default_requirements (read_scen ()) with
        | None -> "INVALID"
